@@ -91,22 +91,33 @@ End PipeCalls.
 Module MapCalls.
   Import NdArr MapSpec MapRun FailingMap FailingMapFacts FailingStoreFacts FailingWitness.
 
-  (* error_surfaces, sequential path (full): the first raising invocation c of the run is reported unchanged with
-     the note = c itself (function, keyword arguments of exactly that invocation), and nothing runs after it *)
-  Theorem C13_error_surfaces_map_seq : forall ubody dump_sub gens inputs user st tr fl lg1 c lg2 e,
+  (* error_surfaces, both paths, hypothesis-free: the first raising invocation c of the run (in submission order) is
+     reported unchanged with the note = c itself (function, keyword arguments of exactly that invocation), and on the
+     sequential path nothing runs after it -- unless the LIBRARY's own machinery raised (an earlier task of the same
+     generation whose selection / dump failed, or a failing dump while the completed results are stored in the
+     exception handler); a user exception is never replaced by another user exception and never swallowed *)
+  Theorem C13_error_surfaces_map : forall ubody dump_sub stop gens inputs user st tr fl lg1 c lg2 e,
+    map_run_f ubody dump_sub stop gens inputs user = (st, tr, fl) ->
+    m_log st = lg1 ++ c :: lg2 -> all_ret ubody lg1 -> ubody (fst c) (snd c) = Raised e ->
+    (fl = Some (FailUser e c) /\ (stop = true -> lg2 = [])) \/ exists x, fl = Some (FailLib x).
+  Proof. exact map_error_surfaces_or_lib. Qed.
+  Print Assumptions C13_error_surfaces_map.
+
+  (* the same with the library-error alternative excluded by hypothesis (sequential path) *)
+  Theorem C13_error_surfaces_map_seq_partial : forall ubody dump_sub gens inputs user st tr fl lg1 c lg2 e,
     map_run_f ubody dump_sub true gens inputs user = (st, tr, fl) ->
     m_log st = lg1 ++ c :: lg2 -> all_ret ubody lg1 -> ubody (fst c) (snd c) = Raised e ->
+    (forall x, fl <> Some (FailLib x)) ->
     fl = Some (FailUser e c) /\ lg2 = [].
   Proof.
-    intros ubody dump_sub gens inputs user st tr fl lg1 c lg2 e H Hl Hd Hr.
-    destruct (map_error_surfaces ubody dump_sub true _ _ _ _ _ _ _ _ _ _ H Hl Hd Hr) as [A B];
-      [intros Hc; discriminate|]. split; [exact A|exact (B eq_refl)].
+    intros ubody dump_sub gens inputs user st tr fl lg1 c lg2 e H Hl Hd Hr Hn.
+    destruct (map_error_surfaces ubody dump_sub true _ _ _ _ _ _ _ _ _ _ H Hl Hd Hr Hn) as [A B].
+    split; [exact A|exact (B eq_refl)].
   Qed.
-  Print Assumptions C13_error_surfaces_map_seq.
+  Print Assumptions C13_error_surfaces_map_seq_partial.
 
-  (* error_surfaces, executor path (partial: the extra hypothesis excludes a LIBRARY error of an earlier task of the
-     same generation, which would be re-raised first): every task of the current generation may run (lg2), the first
-     raising task in submission order is the one reported *)
+  (* ... and on the executor path: every task of the current generation may run (lg2), the first raising task in
+     submission order is the one reported *)
   Theorem C13_error_surfaces_map_par_partial : forall ubody dump_sub gens inputs user st tr fl lg1 c lg2 e,
     map_run_f ubody dump_sub false gens inputs user = (st, tr, fl) ->
     m_log st = lg1 ++ c :: lg2 -> all_ret ubody lg1 -> ubody (fst c) (snd c) = Raised e ->
@@ -114,7 +125,7 @@ Module MapCalls.
     fl = Some (FailUser e c).
   Proof.
     intros ubody dump_sub gens inputs user st tr fl lg1 c lg2 e H Hl Hd Hr Hn.
-    exact (proj1 (map_error_surfaces ubody dump_sub false _ _ _ _ _ _ _ _ _ _ H Hl Hd Hr (fun _ => Hn))).
+    exact (proj1 (map_error_surfaces ubody dump_sub false _ _ _ _ _ _ _ _ _ _ H Hl Hd Hr Hn)).
   Qed.
   Print Assumptions C13_error_surfaces_map_par_partial.
 
@@ -138,10 +149,30 @@ Module MapCalls.
   Proof. exact map_no_later_generation. Qed.
   Print Assumptions C13_no_later_generation.
 
-  (* prefix_results_kept (generations): every result of every generation that completed -- all generations before the
-     failing one -- is in the store after the failure, for every storage and both paths.  `holds s t outs`: for the
-     j-th output o of the task's function, a mapped task has all entries dumped for its output key in the array
-     stored under o, another task has its value stored under o.  (Output names are distinct.) *)
+  (* prefix_results_kept, FULL (repaired code: fix "keep the results that completed before a function raised").
+     `holds s t outs`: for the j-th output o of the task's function, a mapped task has all entries dumped for its
+     output key in the array stored under o, another task has its value stored under o.
+     When map raises a user exception (or returns), EVERY result that completed before the failure is in the
+     store: all tasks of the earlier generations and, in the failing generation, every task that precedes the failing
+     one in submission order (`take_done rs`), for every storage and both paths.  Names are distinct. *)
+  Theorem C13_prefix_results_kept : forall ubody dump_sub stop gens inputs user st tr fl,
+    map_run_f ubody dump_sub stop gens inputs user = (st, tr, fl) ->
+    (fl = None \/ exists e c, fl = Some (FailUser e c)) ->
+    NoDup (flat_map fouts (concat gens)) -> NoDup (map fname (concat gens)) ->
+    forall rs t outs, In rs tr -> In (t, TDone outs) (take_done rs) -> holds (m_store st) t outs.
+  Proof. exact map_prefix_results_kept. Qed.
+  Print Assumptions C13_prefix_results_kept.
+
+  (* ... on the sequential path that is every invocation of the run that returned *)
+  Theorem C13_prefix_results_kept_seq : forall ubody dump_sub gens inputs user st tr fl,
+    map_run_f ubody dump_sub true gens inputs user = (st, tr, fl) ->
+    (fl = None \/ exists e c, fl = Some (FailUser e c)) ->
+    NoDup (flat_map fouts (concat gens)) -> NoDup (map fname (concat gens)) ->
+    forall rs t outs, In rs tr -> In (t, TDone outs) rs -> holds (m_store st) t outs.
+  Proof. exact map_prefix_results_kept_seq. Qed.
+  Print Assumptions C13_prefix_results_kept_seq.
+
+  (* the completed generations alone (no hypothesis on the kind of failure) *)
   Theorem C13_prefix_results_kept_generations : forall ubody dump_sub stop gens inputs user st tr fl,
     map_run_f ubody dump_sub stop gens inputs user = (st, tr, fl) ->
     NoDup (flat_map fouts (concat gens)) ->
@@ -149,39 +180,20 @@ Module MapCalls.
   Proof. exact map_completed_generations_kept. Qed.
   Print Assumptions C13_prefix_results_kept_generations.
 
-  (* prefix_results_kept_partial (elements; guard: the storage dumps in the worker -- file_array,
-     shared_memory_dict -- and the task is an element of a mapped function): every completed element of EVERY
-     generation, including the failing one and the failing function itself, is in the store.
-     FULL statement (refuted below for the sequential path):
-       forall rs t outs, In rs tr -> In (t, TDone outs) rs -> holds (m_store st) t outs *)
-  Theorem C13_prefix_results_kept_partial : forall ubody dump_sub stop gens inputs user st tr fl,
+  (* executor path, beyond the property: with a storage that dumps in the worker (file_array, shared_memory_dict)
+     every completed ELEMENT of a mapped function is in the store, also those submitted AFTER the failing task *)
+  Theorem C13_dumped_elements_kept : forall ubody dump_sub stop gens inputs user st tr fl,
     map_run_f ubody dump_sub stop gens inputs user = (st, tr, fl) ->
     dump_sub = true ->
     forall rs t outs, In rs tr -> In (t, TDone outs) rs -> t_map t <> None -> holds (m_store st) t outs.
   Proof. exact map_dumped_elements_kept. Qed.
-  Print Assumptions C13_prefix_results_kept_partial.
+  Print Assumptions C13_dumped_elements_kept.
 
-  (* refuted, witness 1 (known finding C13-seq-generation-single-output-dropped): sequential path, one generation
-     [s; g], s has no MapSpec and returned, then g raises: the value of s is not in the store *)
-  Theorem C13_prefix_results_kept_refuted_single :
-    exists st tr c,
-      map_run_f w_body true true [[w_s; w_g]] (w_inputs [s "b"]) [] = (st, tr, Some (FailUser wexn c))
-      /\ NoDup (flat_map fouts (concat [[w_s; w_g]]))
-      /\ (exists rs, In rs tr /\ In (w_task_s, TDone [VS (s "s(C)")]) rs)
-      /\ ~ holds (m_store st) w_task_s [VS (s "s(C)")].
-  Proof. exact witness_single_dropped. Qed.
-  Print Assumptions C13_prefix_results_kept_refuted_single.
-
-  (* refuted, witness 2 (known finding C13-seq-generation-dict-elements-dropped): sequential path, storage without
-     dump_in_subprocess, g over [a, b] raises at b: the completed element g(a) is not in the store *)
-  Theorem C13_prefix_results_kept_refuted_dict :
-    exists st tr c t,
-      map_run_f w_body false true [[w_g]] [(s "x", VA {| shp := [2]; dat := [s "a"; s "b"] |})] [] =
-        (st, tr, Some (FailUser wexn c))
-      /\ (exists rs, In rs tr /\ In (t, TDone [VS (s "g(a)")]) rs) /\ t_map t <> None
-      /\ ~ holds (m_store st) t [VS (s "g(a)")].
-  Proof. exact witness_dict_dropped. Qed.
-  Print Assumptions C13_prefix_results_kept_refuted_dict.
+  (* entries of the store are what load_outputs returns at that position when the key occurs with one value *)
+  Theorem C13_stored_is_loadable : forall (st : sto) idx x,
+    In (idx, x) st -> (forall x', In (idx, x') st -> x' = x) -> sto_get st idx = Some x.
+  Proof. exact sto_get_in. Qed.
+  Print Assumptions C13_stored_is_loadable.
 
   (* reproduce_same: the snapshot is (failing invocation, exception); calling the function again with the stored
      keyword arguments raises the same exception *)
@@ -198,8 +210,24 @@ Module MapCalls.
   Proof. exact map_ok_all_return. Qed.
   Print Assumptions C13_map_ok_all_return.
 
-  (* non-vacuity: (a) the guarded element theorem on the run of witness 2 with a storage that dumps in the worker;
-     (b) two generations, the second raises: the first one is kept with the 'dict' discipline on both paths *)
+  (* non-vacuity: the two runs that refuted the property before the repair (former known findings) now satisfy the
+     full theorem; the dumped-element theorem on a storage that dumps in the worker; two generations on both paths *)
+  Example C13_example_single_kept :
+    exists st tr c,
+      map_run_f w_body true true [[w_s; w_g]] (w_inputs [s "b"]) [] = (st, tr, Some (FailUser wexn c))
+      /\ NoDup (flat_map fouts (concat [[w_s; w_g]])) /\ NoDup (map fname (concat [[w_s; w_g]]))
+      /\ (exists rs, In rs tr /\ In (w_task_s, TDone [VS (s "s(C)")]) rs)
+      /\ holds (m_store st) w_task_s [VS (s "s(C)")].
+  Proof. exact example_single_kept. Qed.
+
+  Example C13_example_dict_kept :
+    exists st tr c t,
+      map_run_f w_body false true [[w_g]] [(s "x", VA {| shp := [2]; dat := [s "a"; s "b"] |})] [] =
+        (st, tr, Some (FailUser wexn c))
+      /\ (exists rs, In rs tr /\ In (t, TDone [VS (s "g(a)")]) rs) /\ t_map t <> None
+      /\ holds (m_store st) t [VS (s "g(a)")].
+  Proof. exact example_dict_kept. Qed.
+
   Example C13_example_dumped_kept :
     exists st tr c t,
       map_run_f w_body true true [[w_g]] [(s "x", VA {| shp := [2]; dat := [s "a"; s "b"] |})] [] =
@@ -221,3 +249,66 @@ Module MapCalls.
                            holds (m_store st) t outs.
   Proof. exact example_generation_kept. Qed.
 End MapCalls.
+
+(* ================================================================== capstone: the boolean statement *)
+From Verif Require Corr.C13Pipe Corr.Run_C13 Proofs.C13PipeCap.
+
+(* CAPSTONE, pipeline(...) / run / func cases: the executable statement that judges the implementation
+   (Run_C13.spec_ok, written from the property text) holds of the model's own observation for EVERY pipeline call
+   case -- every pipeline (well-formed or not), output, keywords, flag, entry point, failing invocation and
+   exception -- provided the function names contain no '(' (the call log renders an invocation as name(...)).
+   There is no known region left.  It combines error_surfaces, call_failure_once (function level),
+   reproduce_same and the note / snapshot shape. *)
+Theorem C13_capstone_pipe : forall p o kw full entry tgt e,
+  C13PipeCap.names_ok p = true ->
+  Run_C13.spec_ok (Run_C13.CPipe p o kw full entry tgt e) (Run_C13.run (Run_C13.CPipe p o kw full entry tgt e)) = true.
+Proof. intros p o kw full entry tgt e H. exact (C13PipeCap.pipe_capstone p o kw full tgt e H). Qed.
+Print Assumptions C13_capstone_pipe.
+
+(* CAPSTONE, map cases, WITHOUT the store conjunct: Corr/C13Map.map_spec_ok = map_judge true and
+   map_head_ok = map_judge false are the same boolean statement except that the latter omits the last conjunct
+   ("results completed before the failure remain loadable", which compares the stored arrays with the denotation of
+   C01).  map_head_ok -- the exception unchanged, the note = failing function + kwargs of that invocation, no
+   invocation of a later generation (generation = dependency depth), the sequential path stops at the failure, the
+   ErrorSnapshot names that invocation and reproduce() raises the same exception -- holds of the model's own
+   observation for EVERY map case (any generations / inputs / storage discipline / path / in-process flag / failing
+   invocation / exception) whose model run does not end in an exception of the library itself, provided the function
+   names contain no '('.  NOT proved: the store conjunct at this boolean level (its Prop-level counterpart is
+   C13_prefix_results_kept; the engine evaluates the full spec_ok on the model for every explored case). *)
+From Verif Require Corr.C13Map Proofs.C13MapCap.
+
+Theorem C13_capstone_map_head : forall gens inputs internal dump_sub par inproc tgt e,
+  C13MapCap.names_ok_m gens = true ->
+  C13MapCap.model_no_lib gens inputs internal dump_sub par tgt e = true ->
+  C13Map.map_head_ok gens inputs internal dump_sub par inproc tgt e
+    (C13Map.map_run gens inputs internal dump_sub par inproc tgt e) = true.
+Proof. exact C13MapCap.map_capstone_head. Qed.
+Print Assumptions C13_capstone_map_head.
+
+(* ================================================================== executor path: every schedule *)
+(* The model executes the tasks of a generation in submission order.  That choice is immaterial: for EVERY order in
+   which an executor runs them, each task has the same outcome (it depends on the task alone: its kwargs were fixed at
+   submission from the results of earlier generations, and it writes only to the stores of its own function), the
+   call log is a permutation, and the failure that _process_generation reports -- the first failing task in
+   SUBMISSION order -- is the same.  Together with C13_error_surfaces_map this is error_surfaces for the executor
+   path under every schedule (the library-error alternative remains: excluding it needs "a valid request never makes
+   the library's own machinery fail", which is C01's business, not proved for this model). *)
+From Verif Require Proofs.FailingSchedFacts.
+
+Theorem C13_every_schedule : forall ubody dump_sub ts ts' st st1 rs st1' rs',
+  Permutation.Permutation ts ts' ->
+  FailingMap.exec_tasks ubody dump_sub false ts st = (st1, rs) ->
+  FailingMap.exec_tasks ubody dump_sub false ts' st = (st1', rs') ->
+  Permutation.Permutation rs rs'
+  /\ Permutation.Permutation (FailingMap.m_log st1) (FailingMap.m_log st1')
+  /\ (forall t, In t ts -> forall r, In (t, r) rs' -> r = FailingSchedFacts.outcome_of ubody dump_sub st t)
+  /\ rs = map (fun t => (t, FailingSchedFacts.outcome_of ubody dump_sub st t)) ts.
+Proof. exact FailingSchedFacts.exec_tasks_every_schedule. Qed.
+Print Assumptions C13_every_schedule.
+
+Theorem C13_reported_failure_schedule_free : forall ubody dump_sub ts st st1 rs,
+  FailingMap.exec_tasks ubody dump_sub false ts st = (st1, rs) ->
+  FailingMap.first_fail rs
+  = FailingSchedFacts.first_fail_in ts (FailingSchedFacts.outcome_of ubody dump_sub st).
+Proof. exact FailingSchedFacts.reported_failure_schedule_free. Qed.
+Print Assumptions C13_reported_failure_schedule_free.
